@@ -1,10 +1,22 @@
 import GeomV.C10.GenWrites
+import GeomV.C10.GenBodies
 import GeomV.C10.Ctors
 /-! Regenerated tie for the constructor `Merc` (/repo/proj): the fields it assigns in the Go source (go/ast
 extraction, `GenWrites.lean`, rewritten on every run) are exactly the model's write set; its closures
 assign nothing; no compound assignment; the SR is passed on only to the modelled callees; no field
 address is taken. -/
+set_option linter.unusedSimpArgs false
 namespace GeomV.C10
 theorem tie_Merc :
     Gen.ctorWrites.lookup "Merc" = some (writeSet .merc, [], [], calleesOf .merc, []) := by decide
+
+/-- Regenerated tie for the VALUES and CONDITIONS: the slice of `Merc`'s body that decides its writes and
+its error (extracted by go/ast into `GenBodies.lean` on every run), interpreted by `IR.run`, equals the
+model `initP .merc` for every SR and every float semantics. -/
+theorem tie_body_Merc : BodyTie Gen.ctorBodies .merc := by
+  open IR POps in
+  intro F R _ p
+  simp only [run, Gen.ctorBodies, goFunc, List.lookup]
+  cases h1 : isNaN p.long0 <;> cases h2 : isNaN p.x0 <;> cases h3 : isNaN p.y0 <;>
+    simp [exec, eval, getF, setFld, cstV, call1F, binF, initP, initMerc, nanDefault, h1, h2, h3]
 end GeomV.C10
